@@ -15,6 +15,13 @@ def gen(rng, n, tier, **kw):
             out.append("o_c10 cnfc %d %d %d %d" % (lines, chunk, rs, item))
             out.append("o_c10 rdr %d %d %d %d" % (lines, chunk, rs, item))
         out.append("o_c10 btor2j 1 %d %d 23" % (chunk, rs))
+    # a source that hands out exactly one line per read (read size 0 = the line length): every refill happens on an
+    # empty buffer
+    for parser in ("cnf", "btor2", "cnfc"):
+        for chunk in (16384, 64, 4096):
+            for item in (20, 300):
+                lines = max(50, (big * 4) // item)
+                out.append("o_c10 %s %d %d 0 %d" % (parser, lines, chunk, item))
     return out
 def category(case):
     t = case.split(); return "%s/chunk%s" % (t[1], t[3])
